@@ -29,6 +29,7 @@ structure DState where
   slz : Skiplist.PZSet := Skiplist.PZSet.empty   -- the pointer-level sorted set of the `slz` ops
   wr : RespWriter.Writer := RespWriter.new       -- the bare RESP reply writer of the `wr` lines (C16)
   dead : List String := []                       -- connections closed by QUIT (instance/connection)
+  closing : List String := []                    -- QUIT answered, socket closed by the server: the next command finds out
 
 def DState.sv (d : DState) : Server := ((d.inst.find? (·.1 == d.cur)).map (·.2)).getD {}
 def DState.putSv (d : DState) (sv : Server) : DState :=
@@ -148,15 +149,19 @@ def step (d : DState) (line : String) : DState × String :=
       (d.putSv { sv with store := Store.syncShared sv.store }, out)
     | "resp" :: id :: rest =>
       if d.dead.contains (d.cur ++ "/" ++ id) then (d, "!DEAD") else
+      -- the first command after QUIT finds the socket closed (the client's side then gives up on the connection)
+      if d.closing.contains (d.cur ++ "/" ++ id) then
+        ({ d with dead := (d.cur ++ "/" ++ id) :: d.dead, closing := d.closing.filter (· != d.cur ++ "/" ++ id) }, " !CLOSED") else
       (match rest.mapM Wire.parseArg with
        | none => (d, "bad-op")
        | some argv =>
          let (sv, out) := Driver.respStep tables d.sv id now argv choice
          let d := d.putSv { sv with store := Store.syncShared sv.store }
-         -- QUIT run by execCommand: `+OK` goes into the connection's buffer, then the socket is closed; the
-         -- flush after the handler fails, so the client reads end-of-stream and nothing else (FINDINGS.md)
+         -- QUIT run by execCommand: `+OK` is written and flushed, then the socket is closed (since the repair "QUIT's
+         -- reply never reached the client": the flush used to come after the close); later commands find it dead.
+         -- (QUIT queued in MULTI closes the socket at EXEC time: not tracked here, and not generated.)
          let isQuit := match argv with | nameB :: _ => Resp.upper nameB == Bytes.ofString "QUIT" | [] => false
-         if isQuit && out == "+4f4b" then ({ d with dead := (d.cur ++ "/" ++ id) :: d.dead }, " !CLOSED") else (d, out))
+         if isQuit && out == "+4f4b" then ({ d with closing := (d.cur ++ "/" ++ id) :: d.closing }, out) else (d, out))
     | _ => (d, "bad-op")
 
 partial def loop (h : IO.FS.Stream) (out : IO.FS.Stream) (st : DState) : IO Unit := do
